@@ -3,8 +3,11 @@
   Only property theorems and their non-vacuity examples live here.
 -/
 import Bita.Proofs.CloneSound
+import Bita.Proofs.CloneNoJunk
 import Bita.Proofs.Http
 import Bita.Proofs.IoReader
+import Bita.Proofs.ReaderEnv
+import Bita.Proofs.StepOrder
 
 namespace Bita.Props.C17
 open Bita Bita.Spec
@@ -15,7 +18,9 @@ indexes), chunk data wherever the header's offset and the descriptors' offsets s
 gaps, slack after the header) -, what was opened describes `src` chunk by chunk, and every
 descriptor's range holds stored bytes that decode to its chunk.  Nothing refers to how bita's
 writer lays an archive out.  Every such archive is cloned to exactly the source (any seeds, any
-prior output, in place or not) - or a collision is exhibited. -/
+prior output, in place or not).  The only escape is a collision of the truncated strong hash
+with a genuine source chunk; colliding junk chunks in the prior output are irrelevant
+(`Proofs.reorderOps_keep`). -/
 theorem conforming_archive_clones (H : Bytes → Bytes) (hH : ∀ x, (H x).length = 64)
     (decomp : Nat → Bytes → Nat → Option Bytes) (features : List Nat)
     (archive src : Bytes) (hc : Conforms H decomp features archive src)
@@ -26,11 +31,10 @@ theorem conforming_archive_clones (H : Bytes → Bytes) (hH : ∀ x, (H x).lengt
     ∃ a cks, tryInit H features (honestReadAt archive) = .ok a ∧ Describes H a src cks ∧
       let r := Clone.run H decomp features (honestReadAt archive) (honestReadChunks archive) opts prior seeds
       (r.result = .ok ∧ setLen r.output src.length = src ∧ (opts.blockDev = false → r.output = src)) ∨
-        Collision H a.hashLength cks ∨
-        (opts.seedOutput = true ∧ SelfCollision H a.hashLength a.config prior) := by
+        Collision H a.hashLength cks := by
   obtain ⟨a, cks, hinit, hd, hs⟩ := hc
   refine ⟨a, cks, hinit, hd, ?_⟩
-  exact Proofs.clone_complete H hH decomp features archive opts prior seeds a src cks hinit hd hs
+  exact Proofs.clone_complete_nojunk H hH decomp features archive opts prior seeds a src cks hinit hd hs
     (by intro pin hp; rw [hpin] at hp; cases hp) hdev hbv
 
 /-- What the reader reports about a conforming archive is what the archive says: the accessor
@@ -52,6 +56,53 @@ theorem readers_exact_on_any_layout (data : Bytes) (retry : Nat) (chunks : List 
       fetchAll data retry (maximalRuns chunks) script :=
   Proofs.http_resume data retry chunks script hsize hin
 
+/-- **C17 over HTTP.**  The same through the model of `HttpReader` against an honest server over
+conforming bytes: header reads that get an answer, and a chunk stream in which at most
+`--http-retry-count` responses fail (refused, or cut anywhere), none ends early without an
+error, and enough complete ones arrive - whatever the fragmentation. -/
+theorem conforming_archive_clones_over_http (H : Bytes → Bytes) (hH : ∀ x, (H x).length = 64)
+    (decomp : Nat → Bytes → Nat → Option Bytes) (features : List Nat)
+    (archive src : Bytes) (hc : Conforms H decomp features archive src)
+    (e : HttpEnv) (opts : CloneOpts) (prior : Bytes) (seeds : List Bytes)
+    (hserve : e.serve = honestServe archive)
+    (hat : ∀ off size, ∃ frags rest, e.atScript off size = Resp.full frags :: rest)
+    (hpin : opts.headerPin = none)
+    (hdev : opts.blockDev = true → src.length ≤ prior.length)
+    (hbv : opts.blockDev = true → opts.verifyOutput = false)
+    (hbad : (e.chunksScript.filter (fun r => match r with | .full _ => false | .part _ _ cut => cut | .refuse => true)).length ≤ e.retry)
+    (hnoend : ∀ r ∈ e.chunksScript, ∀ n frags, r ≠ Resp.part n frags false) :
+    ∃ a cks, tryInit H features (honestReadAt archive) = .ok a ∧ Describes H a src cks ∧
+      (a.chunks.length ≤ (e.chunksScript.filter (fun r => match r with | .full _ => true | _ => false)).length →
+      let r := Clone.run H decomp features e.readAt e.readChunks opts prior seeds
+      (r.result = .ok ∧ setLen r.output src.length = src ∧ (opts.blockDev = false → r.output = src)) ∨
+        Collision H a.hashLength cks) := by
+  obtain ⟨a, cks, hinit, hd, hs⟩ := hc
+  refine ⟨a, cks, hinit, hd, fun hlen => ?_⟩
+  exact Proofs.clone_http_complete_budget H hH decomp features archive e opts prior seeds a src cks hserve hat
+    hinit hd hs (by intro pin hp; rw [hpin] at hp; cases hp) hdev hbv hbad hnoend hlen
+
+/-- **C17 through the local reader** under any short-read / `Pending` behaviour that eventually
+delivers. -/
+theorem conforming_archive_clones_through_io_reader (H : Bytes → Bytes) (hH : ∀ x, (H x).length = 64)
+    (decomp : Nat → Bytes → Nat → Option Bytes) (features : List Nat)
+    (e : IoEnv) (src : Bytes) (hc : Conforms H decomp features e.file src)
+    (opts : CloneOpts) (prior : Bytes) (seeds : List Bytes)
+    (hat : ∀ off size, (∀ ev ∈ e.atScript off size, ev = ReadEv.pending ∨ ∃ n, 1 ≤ n ∧ ev = ReadEv.bytes n) ∧
+      size ≤ ((e.atScript off size).filter (· ≠ ReadEv.pending)).length)
+    (hcs : ∀ ev ∈ e.chunksScript, ev = ReadEv.pending ∨ ∃ n, 1 ≤ n ∧ ev = ReadEv.bytes n)
+    (hpin : opts.headerPin = none)
+    (hdev : opts.blockDev = true → src.length ≤ prior.length)
+    (hbv : opts.blockDev = true → opts.verifyOutput = false) :
+    ∃ a cks, tryInit H features (honestReadAt e.file) = .ok a ∧ Describes H a src cks ∧
+      ((a.chunks.map (·.archiveSize)).sum ≤ (e.chunksScript.filter (· ≠ ReadEv.pending)).length →
+      let r := Clone.run H decomp features e.readAt e.readChunks opts prior seeds
+      (r.result = .ok ∧ setLen r.output src.length = src ∧ (opts.blockDev = false → r.output = src)) ∨
+        Collision H a.hashLength cks) := by
+  obtain ⟨a, cks, hinit, hd, hs⟩ := hc
+  refine ⟨a, cks, hinit, hd, fun hlen => ?_⟩
+  exact Proofs.clone_io_complete H hH decomp features e opts prior seeds a src cks hat ⟨hcs, hlen⟩
+    hinit hd hs (by intro pin hp; rw [hpin] at hp; cases hp) hdev hbv
+
 /-! Non-vacuity: a hand-laid archive - legacy magic is covered by the correspondence runs; here:
 chunk data offset with slack, stored chunks in descending order with a gap - conforms and is
 cloned. -/
@@ -71,5 +122,13 @@ example :
     (Clone.run toyH (fun _ b _ => some b) [] (honestReadAt handLaid) (honestReadChunks handLaid) {} [8] []).result = .ok ∧
     (Clone.run toyH (fun _ b _ => some b) [] (honestReadAt handLaid) (honestReadChunks handLaid) {} [8] []).output = [1, 2, 3, 4, 5, 6, 7] := by
   decide +kernel
+
+/-- The step order of `clone_archive` that `Clone.run` transcribes (scan the output and reorder in
+place *before* any seed is used, fetch last, flush before resize), read from the source on every
+run: a reordering of the steps in the code breaks this theorem. -/
+theorem clone_steps_as_modelled :
+    Gen.cloneStepOrder = ["try_init", "banner", "pin", "open_output", "device_check", "scan_output", "reorder",
+                          "seed_stdin", "seed_files", "fetch", "flush", "resize", "verify_output"] :=
+  Proofs.clone_step_order_fact
 
 end Bita.Props.C17
